@@ -43,6 +43,10 @@
 (*                     tangential / normal rows of                         *)
 (*                     project_tangential_normal, and num = 2 repeats the  *)
 (*                     block of the first normal                           *)
+(* Kinds tilt_*: the same calls for nearly axis-aligned directions such as *)
+(* (1, 0, 10^7), handed over as big vectors nb / dv = [s, c, ax, facs]     *)
+(* (OrthoMaps.FxBigDotRel); their MapsToAxis / NormalOrthogonal verdicts   *)
+(* are relative to the big component and always taken on the limbs.        *)
 (* All clauses are evaluated by the single invariant Judgement (the        *)
 (* verdict sets are shared); it prints one verdict record per false        *)
 (* clause, and Tell("inconclusive") for a case where some fixed point      *)
@@ -65,7 +69,8 @@ FNext == /\ ci = 0
          /\ blk' = blk
 FSpec == FInit /\ [][FNext]_jvars
 
-HasR(X) == X.in.kind \in {"plane", "line", "plane_pts", "line_pts", "rot"}
+HasR(X) == X.in.kind \in {"plane", "line", "plane_pts", "line_pts", "rot", "tilt_plane", "tilt_plane_pts"}
+IsTnp(X) == X.in.kind \in {"tnp", "tilt_tnp"}
 Ref(X) == IF X.in.ref = 0 THEN 3 ELSE X.in.ref
 Dim(X) == X.in.dim
 NV(X) == Len(X.in.normals)
@@ -82,16 +87,16 @@ OffBlock(M, d, nb) == Worst({FxIsZero(M.fx[p[1]][p[2]]) :
 
 \* ---- verdict sets per clause
 VRows(X) == IF HasR(X) THEN {GramV(X.out.R, 3, FALSE)}
-            ELSE IF X.in.kind = "tnp"
+            ELSE IF IsTnp(X)
             THEN {GramV(Block(X.out.P, b, Dim(X)), Dim(X), FALSE) : b \in 1..NV(X)}
                  \cup {OffBlock(X.out.P, Dim(X), NV(X)), OffBlock(X.out.P2, Dim(X), 2)}
             ELSE {}
 VCols(X) == IF HasR(X) THEN {GramV(X.out.R, 3, TRUE)}
-            ELSE IF X.in.kind = "tnp" THEN {GramV(Block(X.out.P, b, Dim(X)), Dim(X), TRUE) : b \in 1..NV(X)}
+            ELSE IF IsTnp(X) THEN {GramV(Block(X.out.P, b, Dim(X)), Dim(X), TRUE) : b \in 1..NV(X)}
             ELSE {}
 \* given the Gram verdicts: orthogonal with determinant +1 (2D projection blocks: |det| = 1, nothing to add)
 VDet(X) == IF HasR(X) THEN {ProperGivenV(X.out.R, 3)}
-           ELSE IF X.in.kind = "tnp" /\ Dim(X) = 3 THEN {ProperGivenV(Block(X.out.P, b, 3), 3) : b \in 1..NV(X)}
+           ELSE IF IsTnp(X) /\ Dim(X) = 3 THEN {ProperGivenV(Block(X.out.P, b, 3), 3) : b \in 1..NV(X)}
            ELSE {}
 VAxis(X) ==
   LET K == X.in.kind IN
@@ -99,9 +104,17 @@ VAxis(X) ==
     [] K = "plane_pts" -> LET ds == Diffs(X.in.pts) IN {ComponentsVanishV(X.out.R, 3, ds[i], Ref(X), TRUE) : i \in 1..Len(ds)}
     [] K = "line_pts" -> LET ds == Diffs(X.in.pts) IN {ComponentsVanishV(X.out.R, 3, ds[i], Ref(X), FALSE) : i \in 1..Len(ds)}
     [] K = "tnp" -> {MapsToAxisV(Block(X.out.P, b, Dim(X)), Dim(X), X.in.normals[b], Dim(X), FALSE) : b \in 1..NV(X)}
+    \* tilted (nearly axis-aligned) directions: big vectors, always judged on the limbs, relative to the big component
+    [] K = "tilt_plane" -> {BigPerpV(X.in.nb, X.out.R.fx[i]) : i \in (1..3) \ {Ref(X)}}
+                           \cup {IF BigDotCoarse(X.in.nb, X.out.R.fx[Ref(X)]) > 4096 THEN 0 ELSE 2}
+    [] K = "tilt_plane_pts" -> {BigPerpV(X.in.dv[i], X.out.R.fx[Ref(X)]) : i \in 1..Len(X.in.dv)}
+    [] K = "tilt_tnp" -> {BigPerpV(X.in.nb, X.out.P.fx[i]) : i \in 1..(Dim(X) - 1)}
+                         \cup {IF BigDotCoarse(X.in.nb, X.out.P.fx[Dim(X)]) > 4096 THEN 0 ELSE 2}
     [] OTHER -> {}
 VNormal(X) == IF X.in.kind = "normal"
               THEN LET ds == Diffs(X.in.pts) IN {UnitV(X.out.v)} \cup {PerpV(X.out.v, ds[i]) : i \in 1..Len(ds)}
+              ELSE IF X.in.kind = "tilt_normal"
+              THEN {UnitV(X.out.v)} \cup {BigPerpV(X.in.dv[i], X.out.v.fx) : i \in 1..Len(X.in.dv)}
               ELSE {}
 \* T / N are the tangential / normal rows of P (nb blocks of size d)
 ConsSet(P, T, N, d, nb) ==
@@ -109,18 +122,18 @@ ConsSet(P, T, N, d, nb) ==
   \cup {CloseV(N.fx[b][j], P.fx[(b - 1) * d + d][j]) : b \in 1..nb, j \in 1..(d * nb)}
 \* num = 2: both diagonal blocks repeat the block of the first normal (so they inherit its verdicts)
 VCons(X) ==
-  IF X.in.kind = "tnp"
+  IF IsTnp(X)
   THEN LET d == Dim(X) IN
        ConsSet(X.out.P, X.out.T, X.out.N, d, NV(X)) \cup ConsSet(X.out.P2, X.out.T2, X.out.N2, d, 2)
        \cup {CloseV(X.out.P2.fx[(b - 1) * d + i][(b - 1) * d + j], X.out.P.fx[i][j]) : b \in 1..2, i \in 1..d, j \in 1..d}
   ELSE {}
 
-Shaped(X) == X.in.kind = "tnp" => TnpShapes(X)
+Shaped(X) == IsTnp(X) => TnpShapes(X)
 Applies(X, name) ==
-  CASE name \in {"Orthogonal", "PreservesDistances", "UnitDeterminant"} -> HasR(X) \/ X.in.kind = "tnp"
-    [] name = "MapsToAxis" -> X.in.kind \in {"plane", "line", "plane_pts", "line_pts", "tnp"}
-    [] name = "NormalOrthogonal" -> X.in.kind = "normal"
-    [] name = "TnpConsistent" -> X.in.kind = "tnp"
+  CASE name \in {"Orthogonal", "PreservesDistances", "UnitDeterminant"} -> HasR(X) \/ IsTnp(X)
+    [] name = "MapsToAxis" -> X.in.kind \in {"plane", "line", "plane_pts", "line_pts", "tnp", "tilt_plane", "tilt_plane_pts", "tilt_tnp"}
+    [] name = "NormalOrthogonal" -> X.in.kind \in {"normal", "tilt_normal"}
+    [] name = "TnpConsistent" -> IsTnp(X)
 
 JudgeCase(X) ==
   IF ~(X.out.ok /\ Shaped(X))
